@@ -136,7 +136,8 @@ impl Prop for C09 {
     }
 
     fn explore(&self, ctx: &Ctx, findings: &Findings, ev: &mut Evidence) -> Result<(), String> {
-        let fs = fstar();
+        let mut fs = fstar();
+        fs.extend(limb_patterns(ctx.seed));
         let mut rng = SplitMix(ctx.seed);
         // ---- Poseidon vectors
         let mut vectors: Vec<Vec<BigUint>> = vec![];
